@@ -31,7 +31,10 @@ def dump_mir(repo, scratch):
     env = dict(os.environ)
     env["CARGO_TARGET_DIR"] = os.path.join(scratch, "target")
     env["CARGO_NET_OFFLINE"] = "true"
-    # make sure rustc really runs (an up-to-date fingerprint would print nothing)
+    # make sure rustc really runs (an up-to-date fingerprint would print nothing): drop the crate's own fingerprint, keep the dependencies
+    import glob
+    for d in glob.glob(os.path.join(scratch, "target", "debug", ".fingerprint", "derive-ex-*")):
+        shutil.rmtree(d, ignore_errors=True)
     out = subprocess.run(
         ["cargo", "+nightly", "rustc", "--offline", "-p", "derive-ex", "--lib", "--", "-Zunpretty=mir", "-C", "debug-assertions=off"],
         cwd=repo, env=env, stdout=subprocess.PIPE, stderr=subprocess.PIPE, text=True)
